@@ -563,8 +563,23 @@ Definition run_method_end (args : list N) : list N :=
   | DErr e => [1; e]
   end.
 
+(* 95: a class head after the class name: default access (token type), then tokens.
+   Output: 0, rest length, final, explicit, count, then per base: access, name, virtual, pack *)
+Definition run_class_head (args : list N) : list N :=
+  match args with
+  | d :: r =>
+      match class_head d (dec_tks r) with
+      | DOk (fi, ex, l, rest) =>
+          0 :: nlen rest :: bN fi :: bN ex :: nlen l ::
+            flat_map (fun b => [b_access b; b_name b; bN (b_virtual b); bN (b_pack b)]) l
+      | DErr e => [1; e]
+      end
+  | [] => [1; 0]
+  end.
+
 Definition run_case (cmd : N) (args : list N) : list N :=
   match cmd, args with
+  | 95, _ => run_class_head args
   | 94, _ => run_method_end args
   | 93, _ => run_typedef_stmt args
   | 92, _ => run_field_stmt args
